@@ -6,6 +6,7 @@ import (
 	"encoding/json"
 	"fmt"
 	"os"
+	"path/filepath"
 	"runtime"
 	"runtime/debug"
 	"strconv"
@@ -219,6 +220,9 @@ func TestSim(t *testing.T) {
 			hashes[res.TraceHash] = true
 		}
 		shashes[res.SchedHash] = true
+		if os.Getenv("VERIF_TRACE") != "" {
+			_ = os.WriteFile(filepath.Join(os.Getenv("VERIF_TMP"), fmt.Sprintf("log-%d-%d.txt", idx, os.Getpid())), []byte(strings.Join(res.Log, "\n")), 0o644)
+		}
 		if selftest {
 			out.RunHashes[strconv.Itoa(idx)] = fmt.Sprintf("%016x-%016x-%d", res.TraceHash, res.SchedHash, len(res.Viol))
 		}
